@@ -136,9 +136,14 @@ def run(ctx):
     # third: one single-block file, every finalisation call of one kind failing, repeated: whichever thread ends up
     # holding the last reference to the handle has to report the failure
     sc_one = scenario_one()
+    # every second repetition also perturbs the schedule (strace delays the return of futex/close/ftruncate calls: the dispatcher
+    # is held right after handing a block to the pool, or a worker right after its copy), so that both orders of release occur
     for rep in range(24 if quick else 300):
-        for sysc in ("fsync", "fchmod", "utimensat"):
-            jobs.append(("parblock", [1, 2, 4, 8][rep % 4], sysc, "EIO", 0, "ONE%d" % rep))
+        for sysc in ("fsync", "fchmod", "utimensat", "copy_file_range"):
+            pert = "" if rep % 2 == 0 else "+%s:delay_exit=%d" % (rnd.choice(["futex", "futex", "close", "ftruncate"]), rnd.choice([300, 1000, 3000]))
+            jobs.append(("parblock", [1, 2, 4, 8][rep % 4], sysc, "EIO", 0, "ONE%d%s" % (rep, pert)))
+        # a failing block copy with the dispatcher held at the wake-up of the pool (it then is the last holder of the handle)
+        jobs.append(("parblock", [8, 4, 8, 16][rep % 4], "copy_file_range", "EIO", 0, "ONE%dw+futex:delay_exit=%d" % (rep, [300, 1000, 3000][rep % 3])))
     ctx.notes["syscall_profile(max per thread)"] = profiles
     def one(j):
         drv, w, sysc, err, when, plan = j
@@ -150,6 +155,8 @@ def run(ctx):
         rid = rid.replace("/", "_").replace(":", "")
         root_guess = os.path.join(scratch(), "ns-%s" % rid)
         st_ = {"trace": TRACE, "inject": [inj_spec]}
+        if plan and plan.startswith("ONE") and "+" in plan:
+            st_["inject"].append(plan.split("+", 1)[1])
         if plan and plan.startswith("PAIR:"):
             _, s2, e2, w2 = plan.split(":")
             st_["inject"].append("%s:error=%s:when=%s" % (s2, e2, w2))
